@@ -16,18 +16,13 @@ DEVIATIONS = [
 ]
 
 
-def shared_stamp(trace):
-    """two memory databases of the history were created in one tick of the 5 ms clock (observed creation times)"""
-    st = [json.loads(ln).get("stamp", 0) for ln in trace if '"ev":"Write"' in ln]
-    st = [x for x in st if x > 0]
-    return len(st) != len(set(st))
-
-
 def describe(sig, lines, rel, info):
     kind = "plain"
     head = "".join(lines[:rel])
     if '"ev":"Stuck"' in head or '"locked":true' in head:
         kind = "close-vs-flush"
+    elif '"sametick":true' in head:
+        kind = "same-tick"
     elif '"ev":"EvictRef"' in head:
         kind = "evict-vs-retain"
     elif '"ev":"FlushFail"' in head:
@@ -37,11 +32,16 @@ def describe(sig, lines, rel, info):
 
 def run(ctx, replay):
     if replay:
-        ok, info = ctx.validate_trace("FamilyLifecycleTrace", "FamilyLifecycleTrace_conf.cfg", replay, dfs=False)
+        ok, info = ctx.validate_trace("FamilyLifecycleTrace", "FamilyLifecycleTrace.cfg", replay, dfs=False)
         if not ok:
             ctx.violation("FamilyLifecycle:replay", "replayed trace rejected: %s" % info, replay_src=replay)
         return
-    thorough = ctx.tier == "thorough"
+    family_leg(ctx, ctx.tier == "thorough")
+
+
+def family_leg(ctx, thorough):
+    """Everything the check does except replay handling; also callable as an additional leg of another property
+    (C07: acknowledged rows are durable).  Counters go to ctx.extra under family_* keys."""
     # M: the design with every window closed satisfies all properties; the code (on histories the windows do not touch)
     # satisfies the core ones; every window of the code and every protective step switched off violates its property
     ctx.model_check("MCFamilyLifecycle", "MCFamilyLifecycle_thorough.cfg" if thorough else "MCFamilyLifecycle.cfg", timeout=3600)
@@ -59,33 +59,34 @@ def run(ctx, replay):
     for s in summ["samples"][:2]:
         ctx.sample(s)
     kinds = summ.get("extra", {}).get("events_by_kind", {})
-    ctx.extra["events"] = summ["events"]
-    ctx.extra["events_by_kind"] = kinds
+    ctx.extra["family_events"] = summ["events"]
+    ctx.extra["family_events_by_kind"] = kinds
     traces = vcore.split_traces(vcore.read_lines(tr))
-    # conformance only: two creations in one tick, or (only with the proposed hook tsdb.VerifGate) a writer that stood
-    # between GetOrCreateMemoryDatabase and AcquireWrite during a flush -- rows are lost there, as the model says
+
+    # conformance only: (only with the proposed hook tsdb.VerifGate) a writer that stood between GetOrCreateMemoryDatabase
+    # and AcquireWrite during a flush -- the row is lost there, as the model says (AtomicWrite)
     def lossy(t):
-        return shared_stamp(t) or any('"ev":"WriteGet"' in ln for ln in t)
-    shared = [t for t in traces if lossy(t)]
-    unique = [t for t in traces if not lossy(t)]
-    up = os.path.join(ctx.scratch, "famlife-unique.ndjson")
-    sp = os.path.join(ctx.scratch, "famlife-shared.ndjson")
+        return any('"ev":"WriteGet"' in ln for ln in t)
+    hooked = [t for t in traces if lossy(t)]
+    plain = [t for t in traces if not lossy(t)]
+    up = os.path.join(ctx.scratch, "famlife-plain.ndjson")
+    sp = os.path.join(ctx.scratch, "famlife-hooked.ndjson")
     with open(up, "w") as f:
-        f.write("".join("".join(t) for t in unique))
+        f.write("".join("".join(t) for t in plain))
     with open(sp, "w") as f:
-        f.write("".join("".join(t) for t in shared))
-    # histories whose memory databases have creation times of their own: every step is a step of the specification and
-    # the properties that hold for the code hold in every state
+        f.write("".join("".join(t) for t in hooked))
+    # every step is a step of the specification and the properties that hold for the code hold in every state -- also on
+    # the histories whose memory databases were created in one tick of the fast clock (every accepted row stays
+    # visible, AckedRowsDurable) and on Close against a running flush (NoStuck)
     vcore.validate_all(ctx, "FamilyLifecycleTrace", "FamilyLifecycleTrace.cfg", up, describe=describe, dfs=False, max_rejections=60)
     accepted = ctx.accepted_path
-    # histories with two memory databases created in one clock tick: the specification (switch UniqueStamp = FALSE)
-    # predicts exactly which rows are lost; conformance only
-    if shared:
+    if hooked:
         vcore.validate_all(ctx, "FamilyLifecycleTrace", "FamilyLifecycleTrace_conf.cfg", sp, describe=describe, dfs=False, max_rejections=20)
-    ctx.extra["histories_with_shared_creation_tick"] = len(shared)
+    ctx.extra["family_histories_with_creations_in_one_tick"] = sum(1 for t in traces if any('"sametick":true' in ln for ln in t))
     # the scripted windows were really entered (otherwise the run says nothing about them)
-    need = {"Stuck": "close against a running flush", "EvictRef": "Evict gated between its checks", "FlushFail": "failing flush",
-            "FlushBusy": "second Flush during a flush", "WriteClosed": "write on a closed object", "CloseAck": "acknowledgement by Close"}
+    need = {"close-during-flush-completed": "Close against a running flush", "EvictRef": "Evict gated between its checks", "FlushFail": "failing flush",
+            "FlushBusy": "second Flush during a flush", "WriteClosed": "write on a closed object", "CloseAck": "acknowledgement by Close",
+            "memdbs-created-in-one-tick": "two memory databases created in one tick of the fast clock"}
     for k, what in need.items():
         if not kinds.get(k):
             raise vcore.Unresolved("the driver never exercised: %s (%s)" % (what, k))
@@ -94,7 +95,7 @@ def run(ctx, replay):
     taken = {k.split("@")[0]: v for k, v in cov.coverage.items()}
     for a in ["TLoad", "TWrite", "TWriteClosed", "TCommit", "TAckReg", "TRetain", "TRelease", "TFlushFreeze", "TFlushNothing",
               "TFlushBusy", "TFlushFail", "TFlushCommit", "TFlushAck", "TFlushRelease", "TFlushDrop", "TCloseBegin",
-              "TCloseWait", "TCloseCommit", "TCloseAck", "TCloseNext", "TCloseEnd", "TStuck", "TEvictRef", "TEvictMem",
+              "TCloseWait", "TCloseCommit", "TCloseAck", "TCloseNext", "TCloseEnd", "TEvictRef", "TEvictMem",
               "TEvict", "TRead", "TProj"]:
         if not taken.get(a):
             raise vcore.Unresolved("trace action %s never taken (coverage run)" % a)
@@ -142,7 +143,7 @@ def run(ctx, replay):
     vcore.corrupt_selftest(ctx, "FamilyLifecycleTrace", cfg, clean, corrupt(lambda ln: '"ev":"Proj"' in ln and '"flushing":true' in ln, proj_imm), "frozen database reported as the mutable one")
     ctx.assumptions += [
         "one real engine, one database / shard / family per history; family objects only through shard.GetOrCrateDataFamily and the exported DataFamily interface; reads through the real query path (sql -> leaf processor -> family.Filter), one series and one slot per row",
-        "stages inside Flush are entered on the flushing goroutine through the table writer hook (after the freeze) and the AckSequence callback (after the kv commit, before the drop); Close-vs-Flush and Evict-vs-Retain use two goroutines whose parked state is read from the goroutine dump (no sleeps)",
-        "the clock is not injectable: the age conditions of Evict are made true by setting the write window option of the database (ahead = -4h) after creation; the driver waits for the next 5 ms tick before a new memory database is created, except in the scenario that wants two creations in one tick",
+        "stages inside Flush are entered on the flushing goroutine through the table writer hook (after the freeze) and the AckSequence callback (after the kv commit, before the drop); Close-vs-Flush and Evict-vs-Retain use two goroutines whose parked state is read from the goroutine dump (no sleeps); Close against a flush must complete -- a flush parked at the family mutex or a wait of 30 s is recorded as the event Stuck, which the specification of the repaired code rejects",
+        "the clock is not injectable: the age conditions of Evict are made true by setting the write window option of the database (ahead = -4h) after creation; the driver waits for the next 5 ms tick before a new memory database is created, except in the scenario that wants two creations in one tick (creation times less than 1 ms apart; retried up to 8 times until it happens)",
         "Close is called directly on the family only as the last step of a history (what segment.Close does at shutdown); a failing flush is injected at the creation / close of the table file only; WriteRows is one step (the window between GetOrCreateMemoryDatabase and AcquireWrite has no seam: model only)",
     ]
